@@ -163,7 +163,14 @@ def run_structured(case, acc):
 def check(bdd, r, R, bits, req, case, acc):
     """`R`: table of relation `r` over `bits`; `req`: requested outputs."""
     import omega.symbolic.functions as fcn
-    fs = fcn.make_functions(r, list(req), bdd)
+    if (len(bits) + len(req)) % 2:
+        fs = fcn.make_functions(r, list(req), bdd)
+    else:
+        # the caller's own collection (any iterable of names is accepted),
+        # used for two calls: the second answer is the one judged
+        mine = set(req)
+        fcn.make_functions(r, mine, bdd)
+        fs = fcn.make_functions(r, mine, bdd)
     order = list(fs)
     inputs = [b for b in bits if b not in req]
     idx = {b: i for i, b in enumerate(bits)}
